@@ -12,12 +12,12 @@ CHECKS = {
         note='Trusted: CPython list semantics as the oracle; behaviour beyond the explored bounds (n<=12/40 exhaustive, <=2000 random) is not covered.'),
     'C04': dict(
         category='exploration', design_ref='DESIGN.md §3.2, §4 C04', engine='E2-deterministic-scheduler',
-        technique='runtime monitoring under a deterministic thread scheduler: the real IteratorQueue is driven by producer/consumer threads whose interleaving (at every lock/condition operation and at statement boundaries of the queue methods via sys.monitoring) is chosen by seeded random-walk/PCT strategies; an offline checker over the unique-id event log decides exactly-once, per-producer order, end-of-stream values; hangs are exact deadlock witnesses; consumers / producers that poll with get_nowait / put_nowait against blocking peers (parked pollers cannot mask a deadlock), asyncio producers handed over as awaitables',
+        technique='runtime monitoring under a deterministic thread scheduler: the real IteratorQueue is driven by producer/consumer threads whose interleaving (at every lock/condition operation and at statement boundaries of the queue methods via sys.monitoring) is chosen by seeded random-walk/PCT strategies; an offline checker over the unique-id event log decides exactly-once, per-producer order, end-of-stream values; hangs are exact deadlock witnesses; consumers / producers that poll with get_nowait / put_nowait against blocking peers (parked pollers cannot mask a deadlock), asyncio producers handed over as awaitables; batch_then_away (a consumer parked between its queue operations: a producer left asleep beside a free slot is starved and the scheduler fires its timeout)',
         text='Schedule exploration of the real queue code (about 19k schedules quick, about 1M thorough) with exact deadlock detection and an offline history checker. Unit tests sample one OS schedule each; this explores tens of thousands of distinct interleavings including pre-emption inside the release/re-acquire window.',
         note='Trusted: the scheduler shim (FIFO notify, no spurious wake-ups, re-entrant RLock), CPython queue classes; pre-emption granularity is a Python statement; only explored schedules are covered.'),
     'C05': dict(
         category='exploration', design_ref='DESIGN.md §3.2, §4 C05', engine='E2-deterministic-scheduler',
-        technique='as C04, with enumerated fault positions: every (producer, position) iterator failure, every stop point with/without exception, starvation with a timeout; offline checker over the event log (every consumer sees the failure, no duplicates, all producers return) plus exact deadlock witnesses; faults include a source whose iter() raises, failures of the exception types the queue itself uses, failed ignore_error queues, and asyncio producers with practically endless sources; an empty batch after exhaustion is a violation',
+        technique='as C04, with enumerated fault positions: every (producer, position) iterator failure, every stop point with/without exception, starvation with a timeout; offline checker over the event log (every consumer sees the failure, no duplicates, all producers return) plus exact deadlock witnesses; faults include a source whose iter() raises, failures of the exception types the queue itself uses, failed ignore_error queues, and asyncio producers with practically endless sources; an empty batch after exhaustion is a violation; exceptions that reject notes as producer failures; batch_then_away',
         text='Every failure position and stop point of every generated configuration is combined with several explored schedules; a timed wait may only expire under global starvation, so a masked lost wake-up shows up as an unexpected TimeoutError.',
         note='As C04. Elements still queued when a failure is observed may be dropped (the property only forbids duplicates).'),
     'C13': dict(
@@ -37,7 +37,7 @@ CHECKS = {
         note='Oracle validated against the literal slice expectations of transform_test.py. Two known findings recorded.'),
     'C07': dict(
         category='exploration', design_ref='DESIGN.md §4 C07',
-        technique='runtime differential monitor: every metric family is evaluated through function API, AggregateFn call and accumulator paths on generated inputs and compared with independent brute-force Fraction oracles (validated against 358 literal expectations of the repository tests); alias and range monitors; input classes include 1e5-4e5 examples, probabilities equal to thresholds, large-offset / int32 data, all-negative data, empty rows, unsorted / repeated k lists and exact 0 / 1 probabilities; rankings with repeated ids (range law first, set-based value as a separately keyed second oracle); SymmetricPredictionDifference and math_utils operands rescaled exactly by powers of two (2**-60 .. 2**40)',
+        technique='runtime differential monitor: every metric family is evaluated through function API, AggregateFn call and accumulator paths on generated inputs and compared with independent brute-force Fraction oracles (validated against 358 literal expectations of the repository tests); alias and range monitors; input classes include 1e5-4e5 examples, probabilities equal to thresholds, large-offset / int32 data, all-negative data, empty rows, unsorted / repeated k lists and exact 0 / 1 probabilities; rankings with repeated ids (range law first, set-based value as a separately keyed second oracle); SymmetricPredictionDifference and math_utils operands rescaled exactly by powers of two (2**-60 .. 2**40); configured accumulators through one-shot call / add+result / as_agg_fn / merge; thresholded retrieval with repeated ids and an order twin (rows reversed / rotated)',
         text='About 7.8k (input, configuration) cases and 330k value checks per quick run, 500k cases thorough, against textbook definitions computed from the raw examples.',
         note='Domain restrictions listed in the evidence assumptions (zero-denominator convention, dyadic grids for histograms, retrieval rows non-empty). Three known findings recorded.'),
     'C17': dict(
@@ -47,12 +47,12 @@ CHECKS = {
         note='Expression identity follows Python equality/hash as for functools.lru_cache; single-threaded histories.'),
     'C18': dict(
         category='exploration', design_ref='DESIGN.md §4 C18',
-        technique='runtime monitor with a reference model: sequences of copying set/update operations on generated trees are compared with an independent persistent-update model; deep snapshots and node identities of the originals are compared before/after; independent DFS and recursive map for items/apply; leaf roots, non-list sequence leaves and key_paths views are checked for listing / read-back / apply; a set outside the documented domain that is accepted must read back its value',
+        technique='runtime monitor with a reference model: sequences of copying set/update operations on generated trees are compared with an independent persistent-update model; deep snapshots and node identities of the originals are compared before/after; independent DFS and recursive map for items/apply; leaf roots, non-list sequence leaves and key_paths views are checked for listing / read-back / apply; a set outside the documented domain that is accepted must read back its value; views with total and partial leaf functions (raising KeyError / IndexError / ValueError) with and without key_paths',
         text='16k operation sequences per quick run (480k thorough) with about 3M snapshot checks.',
         note='Only the documented set/get forms are generated (see assumptions).'),
     'C19': dict(
         category='exploration', design_ref='DESIGN.md §4 C19',
-        technique='runtime monitor on an exhaustively enumerated space: every size sequence of length <= 5 over sizes 0-6 x targets 1-7 x 1-3 columns x container kinds is re-batched by the real rebatched_args (and through apply/select/batch pipelines) and checked for row conservation, order, alignment, batch sizes and tail-only padding using unique cell ids; ragged input may never be emitted misaligned; multi-output functions into one key, threaded batch() with barriers, and iterate_fn(multithread) are compared with the plain-Python result; assign with batch sizes over SELF / literal / nested-path inputs at all small size sequences without and with ignore_error, failing elements in front of, inside and behind the re-batchers with an exact which-rows-may-be-missing oracle',
+        technique='runtime monitor on an exhaustively enumerated space: every size sequence of length <= 5 over sizes 0-6 x targets 1-7 x 1-3 columns x container kinds is re-batched by the real rebatched_args (and through apply/select/batch pipelines) and checked for row conservation, order, alignment, batch sizes and tail-only padding using unique cell ids; ragged input may never be emitted misaligned; multi-output functions into one key, threaded batch() with barriers, and iterate_fn(multithread) are compared with the plain-Python result; assign with batch sizes over SELF / literal / nested-path inputs at all small size sequences without and with ignore_error, failing elements in front of, inside and behind the re-batchers with an exact which-rows-may-be-missing oracle; selected literals under batch_size',
         text='1.86M cases per quick run (exhaustive small space), 21M thorough incl. random long streams.',
         note='The stream is passed as an iterator; columns of a batch have equal length.'),
     'C01': dict(
@@ -72,7 +72,7 @@ CHECKS = {
         note='Trusted: the transport stand-in (validated by running the 186 upstream courier tests against it in the thorough tier of C16).'),
     'C08': dict(
         category='exploration', design_ref='DESIGN.md §4 C08',
-        technique='runtime differential monitor with a reference interpreter: generated select/apply/assign/filter/batch/sink chains over all key shapes run through the real runner and through an independent 270-line interpreter (validated on 51 literal expectations of the repository tests); caller inputs compared by deep snapshot and node identity; deliberately invalid key combinations must be rejected when built; duplicate output keys of apply / select are among the invalid combinations; re-batching chains also run over ndarray columns',
+        technique='runtime differential monitor with a reference interpreter: generated select/apply/assign/filter/batch/sink chains over all key shapes run through the real runner and through an independent 270-line interpreter (validated on 51 literal expectations of the repository tests); caller inputs compared by deep snapshot and node identity; deliberately invalid key combinations must be rejected when built; duplicate output keys of apply / select are among the invalid combinations; re-batching chains also run over ndarray columns; aggregates and assigns whose output keys contain SKIP, aggregate results compared with a brute-force aggregate',
         text='13k chains per quick run, 1.1M thorough.',
         note='Only keys that resolve are generated; assign/batch only where documented-valid (see assumptions). Two known findings recorded.'),
     'C12': dict(
@@ -87,7 +87,7 @@ CHECKS = {
         note='Fault-free; a case that misses a 120 s watchdog twice is reported as a hang.'),
     'C06': dict(
         category='fault_enumeration', design_ref='DESIGN.md §3.4, §4 C06', engine='E4-simulated-courier',
-        technique='runtime monitoring with fault injection: real as_completed / WorkerPool.run / sharded_pipelines_as_iterator over real PrefetchedCourierServer workers on the simulated transport with a dilated clock; a fault plan assigns lost request / lost reply / slow-beyond-deadline / death before / death after / application error to the i-th data-plane call of each worker (all single faults on the first 4 calls of every faultable worker for W<=3 enumerated, pairs sampled); oracle over client-side delivery log vs fault-free reference: exactly-once task results, output batches at least once, exactly one final aggregate equal to the in-process one, application errors surface, workers released; two-phase scenarios (a worker pronounced dead rejoins; an aborted iterate) run a second pipeline through the affected worker only; interleaved runs with a failing in-process stage and ignore_error servers are checked for released workers and silent truncation; worker death / alive=False placed between the final reply of the worker and its processing by the client',
+        technique='runtime monitoring with fault injection: real as_completed / WorkerPool.run / sharded_pipelines_as_iterator over real PrefetchedCourierServer workers on the simulated transport with a dilated clock; a fault plan assigns lost request / lost reply / slow-beyond-deadline / death before / death after / application error to the i-th data-plane call of each worker (all single faults on the first 4 calls of every faultable worker for W<=3 enumerated, pairs sampled); oracle over client-side delivery log vs fault-free reference: exactly-once task results, output batches at least once, exactly one final aggregate equal to the in-process one, application errors surface, workers released; two-phase scenarios (a worker pronounced dead rejoins; an aborted iterate) run a second pipeline through the affected worker only; interleaved runs with a failing in-process stage and ignore_error servers are checked for released workers and silent truncation; worker death / alive=False placed between the final reply of the worker and its processing by the client; application errors drawn from a family (coded user errors incl. code 4, ParseError, OSError) at the data-source site with small retry budgets',
         text='About 1k fault plans per quick run, 20k thorough, each executed against the real retry/heartbeat logic.',
         note='Trusted: transport stand-in and time dilation (S=60). One worker is never faulted. Known finding recorded: a next-batch handler that runs after its deadline can steal a batch from a re-initialised generator.'),
     'C20': dict(
@@ -97,7 +97,7 @@ CHECKS = {
         note='Trusted: scheduler shim, stub transport futures, fake clock.'),
     'C03': dict(
         category='exploration', design_ref='DESIGN.md §3.2, §3.3, §4 C03', engine='E2-deterministic-scheduler',
-        technique='runtime differential monitor across execution strategies: the same generated pipeline (exact integer aggregators) runs single-threaded fused (reference, also against an independent plain-Python evaluation), with num_threads 1-4 under the deterministic scheduler (shard fan-out and shared thread-safe iterator, 26 explored schedules per configuration) and on native threads, as fused vs chained named stages, over make(shard=i/k) for all shards with merged states, and through the in-process interleaved stage runner; batch multisets and aggregates must agree; the final aggregate may be sliced per row (shards hold different slice keys), shard states are also merged from a one-shot iterable, sharded runs also use thread fan-out; scenario f: one failing aggregate in a random (also non-final) stage, fused / chained / threaded strategies with ignore_error on and off must agree on the outcome class and, when completed, on batches and aggregates',
+        technique='runtime differential monitor across execution strategies: the same generated pipeline (exact integer aggregators) runs single-threaded fused (reference, also against an independent plain-Python evaluation), with num_threads 1-4 under the deterministic scheduler (shard fan-out and shared thread-safe iterator, 26 explored schedules per configuration) and on native threads, as fused vs chained named stages, over make(shard=i/k) for all shards with merged states, and through the in-process interleaved stage runner; batch multisets and aggregates must agree; the final aggregate may be sliced per row (shards hold different slice keys), shard states are also merged from a one-shot iterable, sharded runs also use thread fan-out; scenario f: one failing aggregate in a random (also non-final) stage, fused / chained / threaded strategies with ignore_error on and off must agree on the outcome class and, when completed, on batches and aggregates; operator faults raised outside the skippable call (wrong output arity, non-batch result) in a non-final stage',
         text='40k strategy runs per quick run (10k explored schedules), 940k thorough.',
         note='Element-wise operators, pre-batched records, no re-batching, no sinks.'),
     'C10': dict(
